@@ -62,6 +62,13 @@ func init() {
 						return v
 					}
 					w.Stats.Inc("recover.after-commit")
+					// ... and hold nothing else: no register outside the committed state, none missing
+					if v := w.durableReach(); v != nil {
+						if len(v.Class) >= 6 && v.Class[:6] == "reach." {
+							v.Class = "recover.registers"
+						}
+						return v
+					}
 				}
 				if st.Op == "crash" || (w.Cfg.OracleStride > 0 && (w.StepNo+1)%w.Cfg.OracleStride == 0) {
 					// "durable": abandoning the storage here leaves exactly the last committed state
